@@ -126,3 +126,64 @@ def operand_helper_calls(model, f, operands: set[str]):
                 binding[params[i]] = a.id
         if binding:
             yield n, h, binding
+
+
+def bool_temporaries(f) -> dict[str, ast.expr]:
+    """Names of `f` assigned exactly once from a boolean-valued expression (named
+    sub-conditions): name -> defining expression."""
+    defs: dict[str, list[ast.expr]] = {}
+    for st in walk_local(f.node):
+        if isinstance(st, ast.Assign) and len(st.targets) == 1 and isinstance(st.targets[0], ast.Name):
+            defs.setdefault(st.targets[0].id, []).append(st.value)
+        elif isinstance(st, (ast.AnnAssign, ast.AugAssign)) and isinstance(st.target, ast.Name):
+            defs.setdefault(st.target.id, []).append(getattr(st, 'value', None))
+    out = {}
+    for name, vals in defs.items():
+        if len(vals) == 1 and isinstance(vals[0], (ast.BoolOp, ast.Compare, ast.UnaryOp, ast.Call)):
+            v = vals[0]
+            if isinstance(v, ast.Call) and dotted(v.func) not in ('isinstance', 'callable', 'hasattr',
+                                                                  'any', 'all', 'bool'):
+                continue
+            out[name] = v
+    return out
+
+
+def expand_bool_temporaries(f, expr: ast.expr, depth: int = 0) -> list[ast.AST]:
+    """All nodes of `expr` plus, for every Name that is a named sub-condition of `f`, the nodes
+    of its definition (transitively)."""
+    temps = bool_temporaries(f)
+    out: list[ast.AST] = []
+    seen: set[str] = set()
+
+    def visit(e: ast.AST, d: int) -> None:
+        for x in ast.walk(e):
+            out.append(x)
+            if isinstance(x, ast.Name) and x.id in temps and x.id not in seen and d < 4:
+                seen.add(x.id)
+                visit(temps[x.id], d + 1)
+    visit(expr, depth)
+    return out
+
+
+def established_class(func_node: ast.AST, node: ast.AST, name: str, class_suffix: str) -> bool:
+    """`node` lies in a region where `name` is established to be an instance of a class whose
+    dotted name ends with `class_suffix`: the body of `if isinstance(name, C)` or of
+    `match name: case C():`."""
+    for st in ast.walk(func_node):
+        if isinstance(st, ast.If):
+            if any(y is node for b in st.body for y in ast.walk(b)) and any(
+                    isinstance(t, ast.Call) and dotted(t.func) == 'isinstance' and len(t.args) == 2
+                    and isinstance(t.args[0], ast.Name) and t.args[0].id == name
+                    and any(dotted(e).split('.')[-1] == class_suffix for e in (
+                        t.args[1].elts if isinstance(t.args[1], ast.Tuple) else [t.args[1]]))
+                    for t in ast.walk(st.test)):
+                return True
+        elif isinstance(st, ast.Match) and isinstance(st.subject, ast.Name) and st.subject.id == name:
+            for case in st.cases:
+                if any(y is node for b in case.body for y in ast.walk(b)):
+                    pats = case.pattern.patterns if isinstance(case.pattern, ast.MatchOr) \
+                        else [case.pattern]
+                    if pats and all(isinstance(p, ast.MatchClass)
+                                    and dotted(p.cls).split('.')[-1] == class_suffix for p in pats):
+                        return True
+    return False
